@@ -32,6 +32,8 @@ structure JobRec where
   afterDrain : Bool
   started : Option Nat := none
   discards : Nat := 0
+  /-- refused outright (TTL, shutdown, rate limit) rather than shed from a queue -/
+  refused : Bool := false
   replies : Nat := 0
   returned : Bool := false
   deriving Repr
@@ -43,6 +45,14 @@ structure OSt where
   running : List (Nat × Nat × Nat) := []
   widOf : List (Nat × Nat) := []
   requested : Nat
+  /-- identity of the discard handler that is installed now (`none`: no handler) -/
+  handler : Option Nat
+  /-- a handler has been installed all along: every discard is observable -/
+  alwaysHandler : Bool
+  /-- handler updates queued behind a busy factory -/
+  pendingHandler : List (Option Nat) := []
+  /-- handler updates took effect somewhere inside this step: no identity check -/
+  handlerFuzzy : Bool := false
   /-- resize requests queued behind a busy handler, in order -/
   pendingReq : List Nat := []
   disc : Option (Nat × Mode)
@@ -117,6 +127,10 @@ def oStep (s : OSt) : Ev → OSt
     else if n == 0 then s else { s with requested := min n GLOBAL_WORKER_POOL_MAXIMUM }
   | .released n =>
     let s := { s with stepOps := s.stepOps + 1 }
+    let s := match s.pendingHandler.getLast? with
+      | some h => { s with handler := h, alwaysHandler := s.alwaysHandler && s.pendingHandler.all (·.isSome),
+                           pendingHandler := [], handlerFuzzy := true }
+      | none => s
     let apply := fun (r : Nat) (n : Nat) => if n == 0 then r else min n GLOBAL_WORKER_POOL_MAXIMUM
     { s with requested := s.pendingReq.foldl apply (apply s.requested n), pendingReq := [] }
   | .settings d => { s with disc := d, discChanged := true, stepOps := s.stepOps + 1 }
@@ -153,11 +167,21 @@ def oStep (s : OSt) : Ev → OSt
       let s := if s.stepDispatch == some id && s.stepOps == 1 then
           { s with curStart := wid.map fun wd => (wd, s.requested) } else s
       s.setJob { j with started := some aid }
-  | .discard r id reported =>
-    if !reported then s
-    else match s.getJob id with
+  | .handlerSet h =>
+    let s := { s with stepOps := s.stepOps + 1 }
+    if s.blocked then { s with pendingHandler := s.pendingHandler ++ [h] }
+    else { s with handler := h, alwaysHandler := s.alwaysHandler && h.isSome }
+  | .discard r id hid =>
+    match hid with
+    | none => s
+    | some hid =>
+    match s.getJob id with
       | none => s.flag "c13-unknown-job"
       | some j =>
+        -- C13: a discard is reported to the handler that is installed NOW (the one the latest
+        -- UpdateSettings put in place), never to a replaced one
+        let s := if !s.handlerFuzzy && s.handler != some hid then s.flag "c13-discard-wrong-handler" else s
+        let j := if r != .loadshed then { j with refused := true } else j
         let s := if j.discards > 0 then s.flag "c13-discarded-twice" else s
         let s := if j.started.isSome then s.flag "c13-handled-and-discarded" else s
         let s := if j.afterDrain && r != .shutdown && r != .ttlExpired then s.flag "c15-drain-wrong-reason" else s
@@ -175,7 +199,7 @@ def oStep (s : OSt) : Ev → OSt
     let hs := s.hooks ++ [h]
     let s := { s with hooks := hs }
     if isPrefixOf' hs [.started, .draining, .stopped] then s else s.flag "c15-hook-order"
-  | .lost .. | .dropped _ | .panicked | .portClosed _ | .handled .. => s
+  | .lost .. | .dropped _ | .panicked | .portClosed _ | .handled .. | .installed _ => s
   | .snap up q act _cap live wq =>
     let blocked := up && q.isNone
     let s := if !up && s.up && !s.hooks.contains .stopped then s.flag "c15-stopped-without-hook" else s
@@ -210,7 +234,7 @@ def oStep (s : OSt) : Ev → OSt
             else s.flag "c15-pool-not-converged"
           else s
         -- C13 nothing silently disappears: factory idle ⇒ every accepted job has a fate
-        let s := if act == 0 && q == 0 && s.running.isEmpty && s.info.hasHandler &&
+        let s := if act == 0 && q == 0 && s.running.isEmpty && s.alwaysHandler &&
             s.jobs.any (fun j => j.started.isNone && j.discards == 0 && !j.returned)
           then s.flag "c13-silently-disappeared" else s
         { s with prevQ := q, prevIdleDrain := s.drainReq && act == 0 && q == 0 && s.running.isEmpty, unprocessed := [] }
@@ -229,10 +253,20 @@ def oStep (s : OSt) : Ev → OSt
           else s
         { s with prevWq := wq }
       | none => s
+    -- C15 limit, Oldest: a dispatch that ends in the factory queue leaves it within L (a backlog
+    -- that is deeper because the limit was lowered is trimmed by the very next such dispatch)
+    let s := match q, s.stepDispatch.bind s.getJob, s.disc with
+      | some q, some j, some (l, .oldest) =>
+        let notParked := s.info.router == RouterKind.q ||
+          (match wq with | some wq => wq.all (fun (x : Nat × Nat) => x.2 == 0) | none => false)
+        if isFactoryQueueing s.info.router && s.stepOps == 1 && !s.discChanged && !blocked && up &&
+           j.started.isNone && !j.refused && !j.afterDrain && s.info.rl.isNone && notParked && q > l
+        then s.flag "c15-queue-limit-oldest" else s
+      | _, _, _ => s
     -- every dispatch after DrainRequests is refused with Shutdown in its own step
     let s := match s.stepDispatch.bind s.getJob with
       | some j =>
-        if j.afterDrain && up && !blocked && s.info.hasHandler && j.discards == 0 then s.flag "c15-drain-unreported"
+        if j.afterDrain && up && !blocked && s.alwaysHandler && j.discards == 0 then s.flag "c15-drain-unreported"
         else if j.afterDrain && up && !blocked && j.acc && !j.returned then s.flag "c15-drain-not-returned"
         else s
       | none => s
@@ -242,9 +276,11 @@ def oStep (s : OSt) : Ev → OSt
         if s.info.router == RouterKind.rr && n1 == n2 && n1 > 0 && w2 != rrNext w1 n1 then s.flag "c14-round-robin-skip" else s
       | _, _ => s
     { s with up := up, blocked := blocked, step := s.step + 1, stepDispatch := none, stepOps := 0,
-             discChanged := false, prevRR := s.curStart, curStart := none }
+             discChanged := false, prevRR := s.curStart, curStart := none, handlerFuzzy := false }
 
-def oInit (info : Info) : OSt := { info, requested := info.n, disc := info.disc }
+def oInit (info : Info) : OSt :=
+  { info, requested := info.n, disc := info.disc, handler := if info.hasHandler then some 0 else none,
+    alwaysHandler := info.hasHandler }
 
 def oRun (info : Info) (h : List Ev) : OSt := h.foldl oStep (oInit info)
 
